@@ -1,2 +1,5 @@
 pub mod engine;
 pub mod props;
+
+#[global_allocator]
+static GLOBAL: engine::alloc::Counting = engine::alloc::Counting;
